@@ -146,9 +146,9 @@ pub fn comp_string(r: &mut Rng, no_slash: bool) -> String {
             }
         }
         if r.chance(1, 30) {
-            let l = crate::gen::dict_token(r);
+            let l = crate::gen::dict_token_cased(r);
             if !(no_slash && l.contains('/')) {
-                s.push_str(l);
+                s.push_str(&l);
                 continue;
             }
         }
@@ -286,9 +286,22 @@ pub fn edge_len_alg(r: &mut Rng) -> String {
     s
 }
 
+/// Names of one family: a stem, a number, an optional tail. Numbers of different magnitude
+/// under one stem separate text order from "natural" order (`x9` / `x10` / `x5y`), and the
+/// well-known hash names carry sizes a special case could key on.
+pub fn family_alg(r: &mut Rng) -> String {
+    let stem = *r.pick(&["sha", "x", "a", "md", "blake", "sha-", "sha3-", "sha512-"]);
+    let num = *r.pick(&["1", "2", "5", "9", "10", "16", "100", "224", "256", "384", "512", "1024"]);
+    let tail = *r.pick(&["", "", "", "y", "b", "-256", "/256", ".1"]);
+    format!("{stem}{num}{tail}")
+}
+
 pub fn gen_alg(r: &mut Rng) -> String {
     if r.chance(1, 3) {
         return r.pick(ALG_VOCABULARY).to_string();
+    }
+    if r.chance(1, 6) {
+        return family_alg(r);
     }
     if r.chance(1, 12) {
         return edge_len_alg(r);
@@ -336,9 +349,17 @@ pub fn gen_tuple(r: &mut Rng, known: bool) -> Tuple {
     if ascii_lower(&ty) == "maven" && nns == 0 {
         nns = 1;
     }
-    let ns: Vec<String> = (0..nns).map(|_| comp_string(r, true)).collect();
-    let name = comp_string(r, false);
-    let ver = if r.chance(3, 5) { Some(comp_string(r, false)) } else { None };
+    let mut ns: Vec<String> = (0..nns).map(|_| comp_string(r, true)).collect();
+    let mut name = comp_string(r, false);
+    if known && r.chance(1, 6) {
+        // namespace and name as they look in that ecosystem
+        let (rns, rname) = crate::gen::realistic_ns_name(r, &ascii_lower(&ty));
+        if !(ascii_lower(&ty) == "maven" && rns.is_empty()) {
+            ns = rns;
+            name = rname;
+        }
+    }
+    let ver = if r.chance(3, 5) { Some(if r.chance(1, 5) { r.pick(crate::gen::VERSION_VOCABULARY).to_string() } else { comp_string(r, false) }) } else { None };
     let nq = *r.pick(&[0usize, 0, 1, 2, 3, 8, 12, 24]);
     let mut quals: Vec<(String, String)> = Vec::new();
     for _ in 0..nq {
